@@ -281,7 +281,15 @@ func (fr *Frame) call(st *State, instr ssa.Instruction, c *ssa.CallCommon, v ssa
 		fr.oblige(st, "frame", "call to "+name+" (unknown write set) inside a function with a modifies clause", "false", instr.Pos())
 	}
 	fr.mayPanicCallee(st, callee, name, instr.Pos())
+	var preKeep *State
+	kc := vc.tableEntryKeeps(callee)
+	if kc != nil {
+		preKeep = st.clone()
+	}
 	vc.havocCallee(st, callee, name)
+	if kc != nil {
+		vc.keepsAssume(kc, preKeep, st)
+	}
 	if v != nil {
 		fr.havocVal(st, v)
 		fr.recordRet(name, v)
@@ -849,6 +857,11 @@ func (fr *Frame) mayPanic(pre *State, con *Contract, callee *ssa.Function, binds
 		fr.applyModifies(ps, pre, con, callee, binds)
 	} else {
 		vc.havocCallee(ps, callee, name)
+		if con == nil {
+			if kc := vc.tableEntryKeeps(callee); kc != nil {
+				vc.keepsAssume(kc, pre, ps)
+			}
+		}
 	}
 	if con != nil {
 		for _, en := range con.OnPanic {
@@ -1489,4 +1502,32 @@ func (vc *VC) panicChoice() Term {
 	sel := vc.declConst("panicSel", "Int")
 	vc.nPanicEdges++
 	return "(= " + sel + " " + fmt.Sprint(vc.nPanicEdges) + ")"
+}
+
+// tableEntryKeeps: a builtin table entry without a contract of its own that is
+// called directly (opLet -> opProgn) keeps what the LBuiltin type contract
+// keeps: the C09 sweep proves `keeps` for every table entry.  Only used while
+// verifying a function that itself claims `keeps`.
+func (vc *VC) tableEntryKeeps(callee *ssa.Function) *Contract {
+	if callee == nil || vc.con == nil || len(vc.con.Keeps) == 0 {
+		return nil
+	}
+	eng := vc.eng
+	if eng.entrySet == nil {
+		eng.entrySet = map[*ssa.Function]bool{}
+		for _, ent := range eng.collectBuiltins() {
+			if !ent.Validator {
+				eng.entrySet[ent.Fn] = true
+			}
+		}
+	}
+	if !eng.entrySet[callee] {
+		return nil
+	}
+	tc := eng.cs.Types[repoPrefix+"/lisp::LBuiltin"]
+	if tc == nil || len(tc.Keeps) == 0 {
+		return nil
+	}
+	vc.note("direct call of the builtin table entry " + shortFn(callee) + ": the `keeps` of the LBuiltin type contract is assumed (proved for that entry by the C09 sweep under its boundary precondition, which is not re-checked at the direct call)")
+	return &Contract{Keeps: tc.Keeps, PkgPath: tc.PkgPath}
 }
